@@ -57,7 +57,8 @@ def _inlinable(facts, caller, call, stop, lambdas):
             # standing for that object
             named = isinstance(o, dict) and (o.get("k") == "ref" or (o.get("k") == "member" and skip_copies(o.get("base") or {}).get("k") == "this"))
             mi = _method_info(facts, f)
-            private_peer = mi is not None and mi.get("access") in (1, 2) and isinstance(o, dict) and o.get("k") == "member" and skip_copies(o.get("base") or {}).get("k") == "this"
+            nested = bool(caller.cls) and bool(f.cls) and strip_tmpl(caller.cls).startswith(strip_tmpl(f.cls) + "::")
+            private_peer = nested and mi is not None and mi.get("access") in (1, 2) and isinstance(o, dict) and o.get("k") == "member" and skip_copies(o.get("base") or {}).get("k") == "this"
             if named and ("(anonymous namespace)" in f.name or private_peer):
                 # (b) a private method of the enclosing class called by a nested helper class through its back pointer (Worker -> handler)
                 receiver = o
